@@ -220,3 +220,14 @@ theorem LevelCfg.incr_flatten (L : LevelCfg σ α) : ∀ (rs : List (Region α))
       rw [this]
 
 end DoltVerif.Prolly
+
+namespace DoltVerif.Prolly
+open DoltVerif.SortedDict (Edits applyEdits Sorted)
+variable {κ ν : Type}
+
+theorem lastKey_leaf [Inhabited κ] (l : NodeH κ ν 0) (hne : l ≠ []) :
+    lastKey 0 l = keyOf 0 (l.getLast hne) := by
+  unfold lastKey
+  rw [List.getLast?_eq_some_getLast hne]
+
+end DoltVerif.Prolly
